@@ -13,7 +13,7 @@ import vlib
 PREFIX = {"id": "id: ", "kv": "k=", "k": "", "tag": ""}
 GROUP_RE = r"id: (?P<value>[^ ]+)"
 PLAIN_RE = r"k=[^ ]+"
-LP = {"lower": "^[a-z]+$", "digit": "[0-9]", "startx": "^x", "min3": "^.{3,}$", "any": ".*"}
+LP = {"lower": "^[a-z]+$", "digit": "[0-9]", "startx": "^x", "min3": "^.{3,}$", "any": ".*", "lower0": "^[a-z]*$", "optx": "^(x.*)?$"}
 CODE = {"sorted": "keep-sorted", "unique": "keep-unique", "pattern": "line-pattern", "count": "line-count"}
 
 
@@ -98,6 +98,11 @@ def render(case, layout="line", pre_lines=0):
         else:
             text = pre + "/* <block%s> */ %s\n" % (attrs, lines[0]) + "".join(t + "\n" for t in lines[1:-1]) + lines[-1] + " /* </block> */\n"
         return "f.rs", text, (lambda j: pre_lines + j)
+    if layout == "mltag":
+        # the start tag spans three lines of one block comment; content starts where that comment ends
+        lines = [line_text(l, "/* <block name=\"n%d\"> </block> */" % j) for j, l in enumerate(block)]
+        text = pre + "/* <block\n   name=\"ml\"\n  %s> */\n" % attrs + "".join(t + "\n" for t in lines) + "/* </block> */\n"
+        return "f.rs", text, (lambda j: pre_lines + 3 + j)
     if layout == "same":
         text = pre + "# <block%s> </block>\n" % attrs
         return "f.py", text, (lambda j: pre_lines + 1)
